@@ -6,7 +6,7 @@ name=$1; shift
 wt=/tmp/seedrun.$$
 git -C /repo worktree add --detach $wt >/dev/null 2>&1 || exit 3
 trap 'git -C /repo worktree remove --force $wt >/dev/null 2>&1; rm -f /tmp/runseed.$$.log' EXIT INT TERM
-git -C $wt apply /verif/seeded/$name/patch.diff || exit 3
+git -C $wt apply ${PATCH:-/verif/seeded/$name/patch.diff} || exit 3
 for c in "$@"; do
   FASTOR_REPO=$wt VERIF_NO_EVIDENCE=1 /verif/bin/check $c --tier ${TIER:-quick} > /tmp/runseed.$$.log 2>&1; rc=$?
   echo "== seed $name check $c exit $rc"
